@@ -27,7 +27,7 @@ class ExtMixin(object):
             f = base[1]
             if f in _MATH1 and len(args) == 1:
                 try:
-                    return Num(_MATH1[f](self.num(args[0], node)))
+                    return Num(_MATH1[f](self.num(args[0], node)), True)
                 except ep.Unsupported as e:
                     self.err(node, str(e))
             if f == "log" and len(args) == 2:
@@ -46,7 +46,7 @@ class ExtMixin(object):
             if f in ("sin", "cos", "tan", "tanh", "sinh", "cosh", "atan", "erf", "erfc", "fabs"):
                 return Num(ep.app("math." + f, [self.num(a, node) for a in args]))
         if short in ("logging.getLogger",) or short.startswith("logging."):
-            return Opaque(("logger",))
+            return LoggerV()
         if name.endswith("Exception") or name.endswith("Error"):
             return ExcV(fn, args)
         self.err(node, "call of external %s" % name)
@@ -71,6 +71,8 @@ class ExtMixin(object):
             c = v.const()
             if c is not None:
                 return Num(ep.const(int(c)))
+            if not v.inexact:
+                return v
             return Num(ep.app("int", [v.rf]))
         if isinstance(v, Const) and isinstance(v.v, str):
             try:
@@ -409,6 +411,8 @@ class ExtMixin(object):
     # ------------------------------------------------------------ bound methods
     def call_bound(self, bb, args, kwargs, node):
         base, name = bb.base, bb.name
+        if isinstance(base, LoggerV):
+            return base if name == "getChild" else NONE
         h = getattr(self, "m_%s_%s" % (type(base).__name__, name), None)
         if h is not None:
             return h(base, args, kwargs, node)
@@ -585,6 +589,14 @@ class BecomeSignal(Exception):
     def __init__(self, old, new):
         self.old = old
         self.new = new
+
+
+class LoggerV(V):
+    def key(self):
+        return ("logger",)
+
+    def __deepcopy__(self, memo):
+        return self
 
 
 class IterV(V):
